@@ -327,6 +327,9 @@ inductive CWStep {G : Type} (step : G → List (Input × InputStatus) → G) (cs
       ({ s with sync := sy } : P2P).advanceRollbackFrame now [r] = .ok (s', reqs') →
       CWStep step csf (s, x)
         (s'.userExecute (gameSaves step csf s.sync.cells.length x reqs'), execGs step s.sync.cells.length x reqs')
+  /-- the user submits a local player's input for the coming call (`add_local_input`) -/
+  | localInput (s : P2P) (x : GS G) (handle : Nat) (input : Input) :
+      CWStep step csf (s, x) ((s.addLocalInput handle input).1, x)
 
 inductive CWStar {G : Type} (step : G → List (Input × InputStatus) → G) (csf : G → Option Nat) :
     (P2P × GS G) → (P2P × GS G) → Prop
@@ -384,6 +387,11 @@ theorem CInv2_step {G : Type} (step : G → List (Input × InputStatus) → G) (
       | true => obtain ⟨_, _, _, _, _, _, _, _, hc, _⟩ := tick_shape_sp s s' now [] reqs' hsp hadv; exact hc
     exact CkRel_tick step csf s' x _ reqs' (by rw [hcl]) hd.1.ncells (by rw [hcl]; exact hck)
       (chk_saved_nonneg _ c c' reqs' hchk)
+  | localInput s x handle input =>
+    refine ⟨DWInv_step step g0 _ _ hd (DWStep.base _ _ (WStep.localInput s x handle input)), ?_⟩
+    obtain ⟨l, hl⟩ := P2P.addLocalInput_pending s handle input
+    show CkRel csf (s.addLocalInput handle input).1.sync.cells x
+    rw [hl]; exact hck
   | tick0 s s' x now sy r reqs' hf0 hsv hadv =>
     have hfr := gameSaves_frames step csf s.sync.cells.length reqs' x
     have hws : WStep step (s, x) _ := WStep.tick0 s s' x now sy r reqs' _ hf0 hsv hadv hfr
